@@ -54,3 +54,101 @@ Theorem C06_error_appends_nothing : forall buf r,
   append_enc buf r = match r with Ok v => Ok (buf ++ enc v) | Err e => Err e | Panic => Panic end.
 Proof. exact append_enc_frame. Qed.
 Print Assumptions C06_error_appends_nothing.
+
+(* ------------------------------------------------------------------------------------------------------------------ *)
+(* The editors as the code runs them on bytes (EditWalk.v: header reads, the iterators of iterator.rs, raw (jentry,
+   payload slice) pairs pushed into the builders of builder.rs, build_into on the caller's buffer; build_array /
+   build_object writing entry words and payloads directly).  No decoding: the statements are about the values themselves,
+   for ANY buffer content `buf`.  Size hypotheses: an input is within the bounds (wfb); where the edit can grow the
+   document (concat, array_insert) the RESULT must be representable, `wf_size (result) = true` (payload < 2^28, count
+   < 2^29: concatenating two huge arrays can leave the format; that is the known payload >= 2^28 finding, not this one);
+   deletions never need it (a deletion of a representable document is representable: proved). *)
+From JB Require Import EditWalk EditWalkProofs.
+
+Theorem C06_concat_bytes : forall a b buf, wfb a = true -> top_ok a -> wfb b = true -> top_ok b ->
+  wf_size (concat_t a b) = true ->
+  concat_w (enc a) (enc b) buf = Ok (buf ++ enc (concat_t a b)).
+Proof. exact concat_w_enc. Qed.
+Print Assumptions C06_concat_bytes.
+
+(* errors: the same error as on the tree (InvalidJsonType for a scalar document), nothing appended *)
+Theorem C06_delete_by_name_bytes : forall v name buf, wfb v = true -> top_ok v ->
+  delete_by_name_w (enc v) name buf = res_map (fun x => buf ++ enc x) (delete_by_name_t v name).
+Proof. exact delete_by_name_w_enc. Qed.
+Print Assumptions C06_delete_by_name_bytes.
+
+(* every index, the whole of i32 and beyond: the arithmetic is on Z and never leaves i32 for i32 inputs (I32.v) *)
+Theorem C06_delete_by_index_bytes : forall v i buf, wfb v = true -> top_ok v ->
+  delete_by_index_w (enc v) i buf = res_map (fun x => buf ++ enc x) (delete_by_index_t v i).
+Proof. exact delete_by_index_w_enc. Qed.
+Print Assumptions C06_delete_by_index_bytes.
+
+Theorem C06_array_insert_bytes : forall v pos x buf, wfb v = true -> top_ok v -> wfb x = true -> top_ok x ->
+  wf_size (array_insert_t v pos x) = true ->
+  array_insert_w (enc v) pos (enc x) buf = Ok (buf ++ enc (array_insert_t v pos x)).
+Proof. exact array_insert_w_enc. Qed.
+Print Assumptions C06_array_insert_bytes.
+
+(* build_array / build_object take complete documents; no condition on the result (the header and entry words are
+   computed with the same `as u32` truncations as the layout), no condition on the keys; a key list and an item list of
+   different lengths are zipped (the Rust function takes an iterator of pairs: there is no count-mismatch error) *)
+Theorem C06_build_array_bytes : forall vs buf, Forall (fun v => wf_size v = true) vs ->
+  build_array_w (map enc vs) buf = Ok (buf ++ enc (build_array_t vs)).
+Proof. exact build_array_w_enc. Qed.
+Print Assumptions C06_build_array_bytes.
+
+Theorem C06_build_object_bytes : forall ks vs buf, Forall (fun v => wf_size v = true) vs ->
+  build_object_w ks (map enc vs) buf = Ok (buf ++ enc (build_object_t (combine ks vs))).
+Proof. exact build_object_w_enc. Qed.
+Print Assumptions C06_build_object_bytes.
+
+(* the same two with the buffer state made explicit: on valid items the loop never takes the error return that would
+   leave the reserved header slot and the entries written so far in the caller's buffer *)
+Theorem C06_build_state_bytes : forall ks vs buf, Forall (fun v => wf_size v = true) vs ->
+  build_array_st (map enc vs) buf = (buf ++ enc (build_array_t vs), Ok tt) /\
+  build_object_st ks (map enc vs) buf = (buf ++ enc (build_object_t (combine ks vs)), Ok tt).
+Proof. intros ks vs buf H. split; [exact (build_array_st_enc vs buf H)|exact (build_object_st_enc ks vs buf H)]. Qed.
+Print Assumptions C06_build_state_bytes.
+
+(* non-vacuity, computed by the byte editors: nested documents, overlapping keys, negative positions, a non-empty buffer *)
+Definition c06_a : value := VObj [([97], VArr [VNum (NInt (-5)%Z); VStr [120]]); ([99], VNull)].
+Definition c06_b : value := VObj [([98], VBool true); ([99], VObj [([107], VStr [121; 122])])].
+Definition c06_arr : value := VArr [VNull; c06_a; VArr [VStr [113]; VStr [114]]; VNum (NUInt 7); VStr [113]].
+Example C06_bytes_examples :
+  (* hypotheses of the theorems hold for these documents *)
+  wfb c06_a = true /\ wfb c06_b = true /\ wfb c06_arr = true /\ top_ok c06_a /\ top_ok c06_arr /\
+  wf_size (concat_t c06_a c06_b) = true /\
+  (* object ++ object: union, the right value wins on the shared key c *)
+  concat_w (enc c06_a) (enc c06_b) [170; 187]
+  = Ok ([170; 187] ++ enc (VObj [([97], VArr [VNum (NInt (-5)%Z); VStr [120]]); ([98], VBool true); ([99], VObj [([107], VStr [121; 122])])])) /\
+  (* scalar ++ array, array ++ object *)
+  concat_w (enc (VStr [113])) (enc c06_arr) [] = Ok (enc (VArr (VStr [113] :: match c06_arr with VArr l => l | _ => [] end))) /\
+  concat_w (enc c06_arr) (enc c06_b) [1] = Ok (1 :: enc (VArr (match c06_arr with VArr l => l | _ => [] end ++ [c06_b]))) /\
+  (* negative index: -4 of 5 is position 1 (the nested object) *)
+  delete_by_index_w (enc c06_arr) (-4)%Z [9]
+  = Ok (9 :: enc (VArr [VNull; VArr [VStr [113]; VStr [114]]; VNum (NUInt 7); VStr [113]])) /\
+  delete_by_index_w (enc c06_arr) (-2147483648)%Z [9] = Ok (9 :: enc c06_arr) /\
+  delete_by_index_w (enc c06_a) 0%Z [9] = Err EInvalidJsonType /\
+  (* delete_by_name: top-level strings equal to the name go (not the nested one), a member goes *)
+  delete_by_name_w (enc c06_arr) [113] [] = Ok (enc (VArr [VNull; c06_a; VArr [VStr [113]; VStr [114]]; VNum (NUInt 7)])) /\
+  delete_by_name_w (enc c06_a) [97] [7] = Ok (7 :: enc (VObj [([99], VNull)])) /\
+  delete_by_name_w (enc (VBool true)) [97] [7] = Err EInvalidJsonType /\
+  (* array_insert: position -1 of 5 is 4; an object base counts as one element; clamping at both ends *)
+  array_insert_w (enc c06_arr) (-1)%Z (enc c06_b) [5]
+  = Ok (5 :: enc (VArr [VNull; c06_a; VArr [VStr [113]; VStr [114]]; VNum (NUInt 7); c06_b; VStr [113]])) /\
+  array_insert_w (enc c06_a) 2147483647%Z (enc (VNum (NUInt 7))) [] = Ok (enc (VArr [c06_a; VNum (NUInt 7)])) /\
+  array_insert_w (enc c06_a) (-2147483648)%Z (enc (VNum (NUInt 7))) [] = Ok (enc (VArr [VNum (NUInt 7); c06_a])) /\
+  (* build_array / build_object: unsorted keys, a duplicate key (the last value wins) *)
+  build_array_w (map enc [c06_b; VNull; c06_arr]) [3] = Ok (3 :: enc (VArr [c06_b; VNull; c06_arr])) /\
+  build_object_w [[122]; [97]; [122]] (map enc [VNull; c06_arr; c06_b]) [3] = Ok (3 :: enc (VObj [([97], c06_arr); ([122], c06_b)])).
+Proof. vm_compute. repeat split; reflexivity. Qed.
+
+(* on buffers that are not encodings the model answers as the code does (tied by the malformed stream of the checker):
+   a cut inside the header is an error that appends nothing, a cut inside the entries ends the iteration early or panics
+   on the payload slice, and an invalid item of build_array is an error that leaves the reserved header slot behind *)
+Example C06_bytes_on_corrupt_buffers :
+  concat_w (firstn 3 (enc c06_arr)) (enc c06_b) [9] = Err EOther /\
+  delete_by_index_w (firstn 10 (enc c06_arr)) 0%Z [9] = Panic /\
+  build_array_st [enc c06_b; [96; 0; 0; 0]] [9] = ([9; 0; 0; 0; 0; 80; 0; 0; 37], Err EOther) /\
+  build_array_st [[32; 0; 0; 0; 64]] [9] = ([9; 0; 0; 0; 0], Panic).
+Proof. vm_compute. repeat split; reflexivity. Qed.
